@@ -14,3 +14,20 @@ package contracts
 //@   results buf
 //@   requires 0 <= ln && ln <= cp
 //@   ensures fresh(buf) && buf#arr != 0 && len(buf) == ln && cap(buf) == cp && buf#base == 0
+//@
+//@ extern bytes.IndexByte
+//@   params b c
+//@   ensures -1 <= result && result < len(b)
+//@
+//@ iface io.Reader.Read
+//@   params p
+//@   results n err
+//@   note the io.Reader contract: n <= len(p); only p[:n] is written. Negative n is tolerated (the adapter handles it).
+//@   ensures n <= len(p)
+//@   modifies mem
+//@
+//@ iface io.Writer.Write
+//@   params p
+//@   results n err
+//@   note the io.Writer contract: 0 <= n <= len(p); p is only read.
+//@   ensures 0 <= n && n <= len(p)
